@@ -57,7 +57,8 @@ return the last one; `collect_str` turns a failed `write_str` into `Err(fmt::Err
 `io::Error` in the adapter and returns `Err(Error::io(adapter.error.expect(..)))` (for a `Display`
 implementation that propagates the `fmt::Error` it is given — std's do; `Model.Ser` records the text of
 a `collect_str` as one `write_str`); `impl Serialize for Value` / `Number` `tri!`s every call. No
-`let _ =`, `.ok()`, `if let Err` or `unwrap_or` on a `Result` occurs in `src/ser.rs`. Hence: the
+`let _ =`, `.ok()`, `if let Err` or `unwrap_or` on a `Result` occurs in `src/ser.rs` (re-checked mechanically on every
+run: `SJ.Gen.Write`, `c13_every_write_checked`). Hence: the
 serializer performs the `write_all` calls whose arguments are the buffer list of `Model.Ser`
 (`W.bufs`, one element per call, in order — that list does not depend on what the writer answers),
 stops at the first one that fails, makes no further call, and returns
